@@ -1026,5 +1026,21 @@ theorem C08_arc_box_from_candidates (a : ArcData ℝ) (t0 t1 t d d' : ℝ) (Ex E
   · rw [eY, eY]; linarith
   · rw [eY, eY]; linarith
 
+/-- **C08 for arcs, the half-turn shifts**: for a coordinate that is not constant, the critical
+    parameters are exactly one of them plus the integer multiples of a half turn — why `Arc.bbox`
+    enumerates `atan_x + (tau/2)·k` (svgelements.py:5764-5769). -/
+theorem C08_arc_critical_spacing (a : ArcData ℝ) (x0 x : ℝ) :
+    ((a.prx.x - a.center.x ≠ 0 ∨ a.pry.x - a.center.x ≠ 0) → denDx a (cos x0) (sin x0) = 0 →
+      (denDx a (cos x) (sin x) = 0 ↔ ∃ n : ℤ, x = x0 + n * π)) ∧
+    ((a.prx.y - a.center.y ≠ 0 ∨ a.pry.y - a.center.y ≠ 0) → denDy a (cos x0) (sin x0) = 0 →
+      (denDy a (cos x) (sin x) = 0 ↔ ∃ n : ℤ, x = x0 + n * π)) := by
+  constructor
+  · intro hAB h0
+    exact ArcMono.critical_spacing (a.prx.x - a.center.x) (a.pry.x - a.center.x) x0 x hAB
+      (by simpa [denDx, ArcMono.g] using h0)
+  · intro hAB h0
+    exact ArcMono.critical_spacing (a.prx.y - a.center.y) (a.pry.y - a.center.y) x0 x hAB
+      (by simpa [denDy, ArcMono.g] using h0)
+
 end ArcReal
 end Svg.C08
